@@ -258,18 +258,28 @@ def _opt_q(text, flags):
     return [int(q)]
 
 
+ZONE = 2 ** 27      # a time is local quarter-seconds since BASE + ZONE * (0: no designator, 1: UTC "Z", 2: +01:00)
+
+
 def time_q(d, flags):
-    """datetime -> quarter-seconds since BASE"""
+    """datetime -> quarter-seconds since BASE (local reading) + ZONE * zone code: the UTC offset is part of the value"""
     try:
+        zone = 0
         if d.tzinfo is not None:
-            flags["exact"] = False
+            off = d.utcoffset().total_seconds()
+            if off == 0:
+                zone = 1
+            elif off == 3600:
+                zone = 2
+            else:
+                flags["exact"] = False
             d = d.replace(tzinfo=None)
         s = (d - BASE).total_seconds()
         q = s * 4
-        if q != int(q) or not (0 <= q < 2 ** 30):
+        if q != int(q) or not (0 <= q < ZONE):
             flags["exact"] = False
-            return [int(q) % (2 ** 30)]
-        return [int(q)]
+            return [int(q) % ZONE]
+        return [int(q) + zone * ZONE]
     except Exception:  # noqa: BLE001
         flags["exact"] = False
         return NIL
